@@ -102,6 +102,9 @@ type Obligation struct {
 	Ms     int64
 	Model  string
 	Detail string
+	// replay
+	FailIdx int         // index of the query (return path) that failed
+	Replay  *ReplayInfo // inputs (and, for ensures, result terms) of the function under verification
 }
 
 // ---------------------------------------------------------------------------
@@ -294,6 +297,7 @@ func (r *Run) obligeMulti(sts []*State, goals []Term, kind, name string, tags []
 		}
 	}
 	o := &Obligation{Name: name, Kind: kind, Tags: tags, Func: r.top.String(), Src: src, Script: scripts[0], More: scripts[1:], Expect: "unsat", Claimed: claimed, Pos: posS}
+	o.Replay = r.replayInfo()
 	r.obls = append(r.obls, o)
 }
 
@@ -1033,6 +1037,18 @@ func (fr *Frame) oname(kind string, pos token.Pos) string {
 	}
 	r.safetyN[k]++
 	return fmt.Sprintf("%s#%s.%d", r.funcLabel(), k, r.safetyN[k])
+}
+
+// replayInfo: the inputs of the function under verification, for model projection (see replay.go)
+func (r *Run) replayInfo() *ReplayInfo {
+	if r.top == nil || len(r.top.Params) != len(r.inputs) {
+		return nil
+	}
+	ri := &ReplayInfo{Fn: r.top}
+	for i, p := range r.top.Params {
+		ri.Params = append(ri.Params, replayVar{Name: p.Name(), Term: r.inputs[i].Term, T: p.Type()})
+	}
+	return ri
 }
 
 func (r *Run) funcLabel() string {
